@@ -413,6 +413,8 @@ def rule_pair_sync_flag(ctx):
                     # did this path take the Ok branch?
                     res = e[6] if len(e) > 6 else ('call', e[1], e[2])
                     ok = None
+                    if ('discr', res) in p.known:
+                        ok = (p.known[('discr', res)] == 0)
                     for c, v in p.conds:
                         if c == ('discr', res):
                             ok = (v == 0)
